@@ -143,7 +143,8 @@ def check_emission(rep, p, name, mode):
     def _alarm(signum, frame):
         raise _Stuck()
     old_handler = signal.signal(signal.SIGALRM, _alarm)
-    signal.setitimer(signal.ITIMER_REAL, CALL_LIMIT_S, 0.5)     # repeats: an exception raised inside a __del__ is swallowed
+    limit_s = CALL_LIMIT_S if p["kind"] != "many" else 10 * CALL_LIMIT_S     # (refinement through plain Sugar needs one request per undecided key)
+    signal.setitimer(signal.ITIMER_REAL, limit_s, 0.5)     # repeats: an exception raised inside a __del__ is swallowed
     try:
         with Capture() as cap:
             with warnings.catch_warnings():
@@ -154,7 +155,7 @@ def check_emission(rep, p, name, mode):
                     return ["exception %s: %s" % (type(e).__name__, str(e)[:200])], 0
                 except _Stuck:
                     # the stand-in solver answers at once, so only the library's own loop (refinement through plain Sugar) can spin
-                    return ["no-termination: the call did not return within %d s (%d requests so far)" % (CALL_LIMIT_S, len(cap.calls))], 0
+                    return ["no-termination: the call did not return within %d s (%d requests so far)" % (limit_s, len(cap.calls))], 0
     finally:
         signal.setitimer(signal.ITIMER_REAL, 0)
         signal.signal(signal.SIGALRM, old_handler)
@@ -277,7 +278,7 @@ def programs(tier, rng):
             out.append({"kind": kind, "n": n, "edges": es, "keymask": rng.randrange(1, 1 << 16)})
             if kind in ("connected", "borders"):
                 out.append({"kind": kind, "n": n, "edges": es, "keymask": rng.randrange(1, 1 << 16), "consts": True})
-    for nv in ((300,) if tier == "quick" else (257, 300, 1100)):
+    for nv in ((300,) if tier == "quick" else (257, 300, 520)):
         out.append({"kind": "many", "nvars": nv, "keymask": 0xFFFF})
     return out
 
@@ -292,7 +293,9 @@ def run(tier, only=None):
         for name in (NAMES if tier == "thorough" or p["kind"] != "tree" else [NAMES[i % 5], NAMES[(i + 2) % 5]]):
             for mode in ("find", "solve"):
                 if stuck.get((name, mode), 0) >= 2:
-                    continue          # this route already failed to terminate twice (reported): do not spend a minute per further program
+                    continue
+                if p["kind"] == "many" and p["nvars"] > 300 and name == "sugar" and mode == "solve":
+                    continue          # hundreds of refinement rounds through the stand-in solver: minutes of z3 time, nothing new          # this route already failed to terminate twice (reported): do not spend a minute per further program
                 rep.programs += 1
                 rep.evaluations += 1
                 issues, nq = check_emission(rep, p, name, mode)
